@@ -330,7 +330,7 @@ func init() {
 		Name:     "concurrent-vms",
 		Run:      runC09,
 		Level:    "exploration",
-		Rule: "one run = 2..8 evaluations, each on its own VM with its own globals, over programs that touch every piece of package-level state (fresh reflect-made struct/slice/array/map types as globals and through proxy method calls, so that registry first-use paths run every time; " +
+		Rule: "one run = 2..8 (thorough tier: up to 16) evaluations, each on its own VM with its own globals, over programs that touch every piece of package-level state (fresh reflect-made struct/slice/array/map types as globals and through proxy method calls, so that registry first-use paths run every time; " +
 			"codec registry with a host task registering codecs concurrently; one shared importer; one shared compiled code object; error construction; clones of a running VM called from other host tasks). " +
 			"Phase S (this binary without -race): all tasks run under the baton scheduler with yields before every registry lock, and each evaluation's result must equal the result of the same program run alone. " +
 			"Phase R (binary built with -race): a seeded serial prefix up to a tape-chosen rendezvous step, then all tasks are released together; a race-detector report whose innermost frames are risor code is a violation. " +
@@ -375,6 +375,9 @@ func c09GlobalNames() []string {
 func runC09(rc *fw.RunCtx) {
 	g := rc.Tape.Stream("gen")
 	n := g.Range(2, 8)
+	if rc.Tier == "thorough" && g.Chance(1, 4) {
+		n = g.Range(9, 16)
+	}
 	shareCode := g.Bool()
 	withClones := g.Chance(1, 3)
 	withCodecWriter := g.Chance(1, 2)
